@@ -57,8 +57,12 @@ RULE = ("hist cases: seed -> tree (<= 8 nodes, random shape, bonds/open dims fro
         "non-trivial = history with >= 3 different operation kinds in which some operand had a pending "
         "(non-identity) leg permutation or an identifier was reused; nodeseq with >= 3 different methods")
 PARTIAL = [
-    "value-level invariance of the contraction (tensordot / transpose / reshape semantics of NumPy) is decided "
-    "by the dense oracle only; the Lean theorems speak about structure, leg labels and shapes",
+    "value-level invariance is proved on valued networks (Ptn/C02/Value.lean: contract_nodes_value, split_nodes_value "
+    "given an exact factorisation, replace_tensor_value, insert_identity_value, ops_preserve_value for arbitrary "
+    "histories); that a run of the STRUCTURAL model induces these value-level steps is not a theorem: it is tied by "
+    "the `value` stream (integer tensors: the structural model predicts the legs and their order, the Lean value model "
+    "evaluates them, contract_nodes must agree exactly) and by the dense oracle; transpose / reshape semantics of NumPy "
+    "are trusted",
     "QR / SVD factorisation contracts (Q.R = M, U.S.Vh = M untruncated) are external; validated on every live "
     "split by the dense comparison",
     "proved at the graph level (ops_preserve_wf: one root, symmetric links, tree, equal key sets, Node invariant, "
@@ -1866,6 +1870,121 @@ def run_comp(ctx, case: Dict[str, Any]):
             return
 
 
+# ===================================================================== value level (contract_nodes on integer tensors)
+
+def _parse_state(field: str) -> Dict[int, Tuple[Optional[int], List[int], List[int], List[int]]]:
+    """`root=…;T=…;<id>:<parent|->:<children>:<open labels>:<shape>;…` -> id -> (parent, children, open labels, shape)"""
+    res = {}
+    for part in field.split(";")[2:]:
+        i, par, ch, op, sh = part.split(":")
+        res[int(i)] = (None if par == "-" else int(par), parse_list(ch), parse_list(op), parse_list(sh))
+    return res
+
+
+def run_values(ctx, cases: List[Dict[str, Any]]):
+    """Stream `value`: the library's `contract_nodes` on integer tensors against the Lean value-level semantics.  The two
+    node tensors are read before the call; the C02 structural model predicts the legs of the two operands and of the new
+    node (parent, children, open labels - its state before and after the `contract` op); `C04 einrec` evaluates
+    `netValue` (the function `contract_nodes_value` is about) of the two tensors with the bond bound and the free legs in
+    the predicted order; the library's new tensor must be that table, entry by entry, exactly."""
+    from harness import einsum_corr
+    prepared = []
+    for case in cases:
+        w = World(case)
+        rng = random.Random(case["seed"] ^ 0x5851F42D)
+        n = case["n"]
+        par = w.par
+        x = rng.choice([i for i in range(n) if par[i] >= 0])
+        child, parent = w.names[x], w.names[par[x]]
+        a, b = (child, parent) if rng.random() < 0.5 else (parent, child)
+        mode = rng.choice(["default", "new", "a", "b"])
+        new = {"default": default_contract_id(a, b), "new": "vnew", "a": a, "b": b}[mode]
+        idx = {w.nid(w.names[i]): i for i in range(n)}          # protocol number -> tree index (before nid(new))
+        tok = f"contract:{w.nid(a)}:{w.nid(b)}:{w.nid(new)}"
+        try:
+            A = np.array(w.ttn.tensors[a], copy=True)
+            B = np.array(w.ttn.tensors[b], copy=True)
+            if mode == "default":
+                w.ttn.contract_nodes(a, b)
+            else:
+                w.ttn.contract_nodes(a, b, new_identifier=new)
+            got = np.asarray(w.ttn.tensors[new])
+        except Exception as e:      # noqa: BLE001
+            ctx.oracle_fail(case, f"value: contract_nodes({a}, {b}, {mode}) raised {type(e).__name__}: {str(e)[:160]}")
+            continue
+        ctx.tally("value_mode", mode + ("/child first" if a == child else "/parent first"))
+        ctx.count(("value", case["seed"], n), nontrivial=A.ndim + B.ndim >= 5, corr=True)
+        prepared.append((case, w, idx, a, b, new, A, B, got, "C02 hist " + " ".join(w.build_toks + [tok])))
+    outs = ctx.lean.batch([p[-1] for p in prepared])
+    lines, owners = [], []
+    for (case, w, idx, a, b, new, A, B, got, _), out in zip(prepared, outs):
+        fields = out.split("|")
+        if len(fields) != len(w.build_toks) + 1 or "err" in fields[-2:]:
+            ctx.corr_fail(case, f"value: the structural model answers [{out[-160:]}] on an admissible contraction")
+            continue
+        pre, post = _parse_state(fields[-2]), _parse_state(fields[-1])
+        na, nb, nnew = w.nid(a), w.nid(b), w.nid(new)
+
+        def bond(k, y):
+            # label of the bond between two adjacent nodes of the initial tree: 1000 + tree index of the child
+            return 1000 + (idx[k] if w.par[idx[k]] == idx[y] else idx[y])
+
+        def legs_of(k):
+            p_, ch, op, _sh = pre[k]
+            return ([("b", bond(k, p_))] if p_ is not None else []) + [("b", bond(k, c)) for c in ch] + [("o", l) for l in op]
+        la, lb = legs_of(na), legs_of(nb)
+        if list(A.shape) != pre[na][3] or list(B.shape) != pre[nb][3] or len(la) != A.ndim or len(lb) != B.ndim:
+            ctx.corr_fail(case, f"value: operand shapes {A.shape}, {B.shape} differ from the model's {pre[na][3]}, {pre[nb][3]}")
+            continue
+        if nnew not in post:
+            ctx.corr_fail(case, "value: the model has no node with the new identifier after the contraction")
+            continue
+        shared = ("b", bond(na, nb))
+        num = {}
+        for l in la:
+            num[("A", l)] = len(num)
+        for l in lb:
+            num[("B", l)] = len(num)
+        dims = [int(d) for d in A.shape] + [int(d) for d in B.shape]
+        owner = {l: "A" for l in la if l != shared}
+        owner.update({l: "B" for l in lb if l != shared})
+        p_, ch, op, sh = post[nnew]
+
+        def nb_label(y):
+            # the neighbour y of the new node was a neighbour of exactly one of the two contracted nodes
+            for k in (na, nb):
+                q_, cs, _o, _s = pre[k]
+                if y == q_ or y in cs:
+                    return ("b", bond(k, y))
+            return None
+        want = ([nb_label(p_)] if p_ is not None else []) + [nb_label(c) for c in ch] + [("o", l) for l in op]
+        if any(l is None or l not in owner for l in want) or len(want) != len(owner) or len(set(want)) != len(want):
+            ctx.corr_fail(case, f"value: the legs the model predicts for the new node {want} are not the remaining legs of the "
+                                f"two operands {sorted(owner)}")
+            continue
+        free = [num[(owner[l], l)] for l in want]
+        size = 1
+        for l in free + [num[("A", shared)]]:
+            size *= dims[l]
+        if size > 40000:
+            ctx.tally("value_compare", "skipped (too large)")
+            continue
+        lines.append(einsum_corr.einrec_line(dims, free, [(num[("A", shared)], num[("B", shared)])],
+                                             [([num[("A", l)] for l in la], A), ([num[("B", l)] for l in lb], B)]))
+        owners.append((case, got, sh))
+    for (case, got, sh), ans in zip(owners, ctx.lean.batch(lines)):
+        tab = einsum_corr.parse_table(ans, "full")
+        if tab is None:
+            ctx.corr_fail(case, f"value: the value-level model rejects the network of the two operands: [{ans[:120]}]")
+        elif list(got.shape) != sh:
+            ctx.corr_fail(case, f"value: shape of the new tensor {list(got.shape)} != model {sh}")
+        elif not np.issubdtype(got.dtype, np.integer) or [int(v) for v in got.reshape(-1)] != tab:
+            ctx.corr_fail(case, f"value: contract_nodes returns {[int(v) for v in np.asarray(got).real.reshape(-1)[:8]]}…, the Lean "
+                                f"model's netValue with the predicted leg order is {tab[:8]}…")
+        else:
+            ctx.tally("value_compare", "exact")
+
+
 def run_case(ctx, case, model_out=None):
     kind = case.get("kind", "hist")
     if kind == "hist":
@@ -1901,6 +2020,8 @@ def run_case(ctx, case, model_out=None):
         compare_nodeseq(ctx, case, toks, lines, probs, model_out)
     elif kind == "comp":
         run_comp(ctx, case)
+    elif kind == "value":
+        run_values(ctx, [case])
     else:
         raise common.HarnessError(f"unknown case kind {kind}")
 
@@ -1921,6 +2042,10 @@ def gen_cases(ctx) -> List[Dict[str, Any]]:
     for _ in range(ctx.n(150, 1500)):
         cases.append({"kind": "comp", "seed": rng.randrange(10 ** 9), "n": rng.choice([2, 3, 4, 5, 6, 7, 8]),
                       "nops": rng.randint(2, 10)})
+    vrng = ctx.subrng("value")
+    for _ in range(ctx.n(200, 2000)):
+        cases.append({"kind": "value", "seed": vrng.randrange(10 ** 9), "n": vrng.choice([2, 2, 3, 4, 5, 6]),
+                      "aud": {"dtype": "int"}})
     return cases
 
 
@@ -1966,6 +2091,7 @@ def run(ctx):
         elif case.get("kind") == "comp":
             run_case(ctx, case)
     flush()
+    run_values(ctx, [c for c in cases if c.get("kind") == "value"])
 
 
 def shrink(case):
